@@ -25,12 +25,14 @@ func vh_Strings() {
 	vCover("rendered")
 }
 
+// The timers are short so that Stop() (which waits for the ticker and heartbeat goroutines) returns promptly
+// when a run is replayed natively; the harness itself finishes long before the first tick.
 func vNewStoppedNode() (*Raft, *vTransport, *vFSM, *persistentLog) {
 	lg := vBuildLog("d", 0, 0, 0, 0, false)
 	tr := &vTransport{addr: "addr-n1"}
 	fsm := &vFSM{}
 	r, err := NewRaft("n1", "addr-n1", fsm, "unused", WithLog(lg), WithStateStorage(&vState{}), WithSnapshotStorage(&vSnapStore{}),
-		WithTransport(tr), WithElectionTimeout(vElectionTimeout), WithHeartbeatInterval(time.Hour))
+		WithTransport(tr), WithElectionTimeout(400*time.Millisecond), WithHeartbeatInterval(20*time.Millisecond))
 	vAssert(err == nil, "C13|C14.node-construction-succeeds")
 	if err != nil {
 		vEndPath()
@@ -68,7 +70,7 @@ func vh_API() {
 	vTagInt("probe", probe)
 	// make the node willing to process vote requests
 	r.mu.Lock()
-	r.lastContact = vTimeAgo(2 * vElectionTimeout)
+	r.lastContact = vTimeAgo(time.Hour)
 	r.mu.Unlock()
 	switch probe {
 	case 0:
